@@ -432,8 +432,11 @@ def _run_alias(case):
                 rec.c('bypass_without_observable_difference')
 
         # -- "the replacement is the one whose documented purpose matches the old name"
-        if not rule_done and o['returned']:
-            rule_done = True
+        # The rule is decided on names once per pair; a flag needs a behavioural witness, looked for on every variant
+        # until one is found on which the better-matching function accepts the arguments. The old call need not have
+        # returned: an old name that raises where the better match returns is the witness of a sibling declared as
+        # replacement (the differential observation above cannot see it: old and declared replacement agree).
+        if not rule_done:
             kind = 'function' if recv_cls is None else 'method'
             cands = ob.public_functions(ns, kind)
             from ..oracle import c20_compare as cmp
@@ -441,20 +444,24 @@ def _run_alias(case):
             ok, better = cmp.name_rule(name, new_name, cands)
             if cmp.norm_name(name) == cmp.norm_name(new_name):
                 rec.c('name_rule_same_name_respelled')
+                rule_done = True
             elif ok:
                 rec.c('name_rule_accepted_best_match')
+                rule_done = True
             else:
-                rec.c('name_rule_flagged')
+                if i == 0:
+                    rec.c('name_rule_flagged')
                 b = better[0]
                 b_fn = getattr(recv if (recv_cls is not None and not on_class) else ns, b)
                 ob_b = _obs(rec, dict(call, fn=b_fn), f'a{i}_better', codes)
                 if ob_b.get('returned'):
+                    rule_done = True
                     rec.ev()
-                    db = ob.compare(o, ob_b)
-                    if any(k == 'result-differs' for k, _ in db):
+                    db = [(k, d) for k, d in ob.compare(o, ob_b) if k in ('result-differs', 'old-raises-replacement-returns')]
+                    if db:
                         rec.violation(f'C20/replacement-does-not-match-documented-purpose/{short}',
-                                      f'{pair}: forwards to {new_name} although {b} matches the old name better, and {name}(args) differs from {b}(args): '
-                                      + ' | '.join(d for _, d in db)[:600],
+                                      f'{pair} [{v["label"]}]: forwards to {new_name} although {b} matches the old name better, and {name}(args) '
+                                      f'differs from {b}(args): ' + ' | '.join(f'{k}: {d}' for k, d in db)[:600],
                                       dict(wit, better_match=b, better=_trim(ob_b), doc=(inspect.getdoc(wrapper) or '')[:200]))
                     else:
                         rec.c('name_rule_flag_without_behavioural_difference')
